@@ -187,16 +187,19 @@ SLICES["docmarks"] = SLICES["list"]
 SLICES["ni"] = SLICES["list"]
 SLICES["cx"] = [('doc(p("xy"))', 1, 3), ('doc(p("xy"))', 0, 4), ('doc(h1("h"))', 0, 3), ('doc(p("a"), sec(hr()))', 3, 6),
                 ('doc(p("a"), sec(h1("h"), p("c")))', 3, 10), ('doc(p("a"), p("b"))', 2, 5)]
-SLICES["iso"] = SLICES["list"] + [('doc(iso(p("i")))', 0, 5), ('doc(iso(p("i")), p("j"))', 2, 7), ('doc(iso(p("i")))', 1, 4)]
+SLICES["iso"] = SLICES["list"] + [('doc(iso(p("i")))', 0, 5), ('doc(iso(p("i")), p("j"))', 2, 7), ('doc(iso(p("i")))', 1, 4),
+                                  ('doc(iso(p("ij")), iso(p()))', 3, 8)]       # open through an isolating node down into its text
 SLICES["table"] = SLICES["list"] + [('doc(table(row(cell(p("i")), cell(p("j")))))', 3, 12),
-                                    ('doc(table(row(cell(p("i")))))', 0, 9), ('doc(table(row(cell(p("i")))))', 2, 7)]
+                                    ('doc(table(row(cell(p("i")))))', 0, 9), ('doc(table(row(cell(p("i")))))', 2, 7),
+                                    ('doc(table(row(cell(p("j"))), row(cell(p()))))', 4, 12)]   # rows open through a cell into text
 SLICES["strict"] = [('doc(h1("Head"), body(p("Con")))', 7, 12), ('doc(h1("Head"), body(p("Con")))', 1, 5),
                     ('doc(h1("Head"), body(p("Con")))', 0, 13), ('doc(h1("Head"), body(p("Con")))', 3, 9),
                     ('doc(h1("H"), body(ul(li(p("x")))))', 5, 9)]
 SLICES["title"] = [('doc(title("hi"), p("a"))', 1, 3), ('doc(title("hi"), p("a"))', 0, 7), ('doc(title("hi"), p("a"))', 2, 6),
                    ('doc(title("t"), pre("two"))', 1, 7), ('doc(ul(li(p("one")), li(p("two"))))', 2, 12)]
 SLICES["fixed"] = [('doc(blk(fa("aa"), fb("bb")))', 3, 10), ('doc(blk(fa("aa"), fb("bb")))', 2, 4),
-                   ('doc(blk(fa("aa"), fb("bb")))', 0, 10), ('doc(blk(fa("aa"), fb("bb")))', 4, 7)]
+                   ('doc(blk(fa("aa"), fb("bb")))', 0, 10), ('doc(blk(fa("aa"), fb("bb")))', 4, 7),
+                   ('doc(blk(fa("aa"), fb("bb")))', 6, 8, True)]    # open on both sides through a block that lacks its required first child
 
 
 def docs(schema_name):
